@@ -48,3 +48,29 @@ def mant(v, bits=26):
     m, e = math.frexp(v)
     mi = int(m * (1 << bits))
     return [mi, e - bits]
+
+
+def relayout(a, h):
+    """the same values in another storage layout / dtype (chosen by h): C, Fortran, strided view, float32 or integer when exact.
+    Used by the replays: a function of array-like data must not depend on how the caller stores the numbers."""
+    import numpy as np
+    a = np.asarray(a)
+    k = h % 5
+    if k == 0:
+        return np.ascontiguousarray(a)
+    if k == 1:
+        return np.asfortranarray(a)
+    if k == 2:
+        if a.ndim == 1:
+            big = np.zeros(3 * len(a) + 1, dtype=a.dtype)
+            big[1::3] = a
+            return big[1::3]
+        big = np.zeros((a.shape[0], 2 * a.shape[1]), dtype=a.dtype)
+        big[:, ::2] = a
+        return big[:, ::2]
+    if k == 3 and a.dtype.kind == "f":
+        b = a.astype(np.float32)
+        return b if np.array_equal(b.astype(np.float64), a, equal_nan=True) else a
+    if k == 4 and a.dtype.kind == "f" and a.size and np.all(np.isfinite(a)) and np.all(a == np.round(a)) and np.all(np.abs(a) < 2 ** 31):
+        return a.astype(np.int64)
+    return a
